@@ -3,7 +3,8 @@
    (shape_contract / svd_contract); matrices over R are lists of rows read through mget Rops. *)
 From Coq Require Import List Arith Bool Reals.
 From TLV Require Import Base.Ops Base.Tensor Base.RSum Model.Svd Proofs.SvdProofsAux Proofs.SvdProofs
-  Proofs.SvdNNProofs Proofs.SvdSymeigProofs Proofs.SvdRandProofs Proofs.SvdInterfaceProofs.
+  Proofs.SvdNNProofs Proofs.SvdSymeigProofs Proofs.SvdRandProofs Proofs.SvdInterfaceProofs
+  Proofs.SvdGramProofs Proofs.SvdSymeigFull Proofs.SvdMaskProofs Proofs.SvdDecisions.
 Import ListNotations.
 Local Open Scope nat_scope.
 
@@ -196,3 +197,187 @@ Theorem C05_interface_truncated_e2e : forall (oracle : bool -> triple R) d1 d2 (
     = rsum (Nat.min d1 d2 - r) (fun t => ((nth (r + t) (snd (fst (oracle false))) 0)^2)%R).
 Proof. exact interface_truncated_e2e. Qed.
 Print Assumptions C05_interface_truncated_e2e.
+
+(* ================= round 3 ================= *)
+(* --- symeig_svd returns a truncated SVD whenever the kept eigenvalues of the Gram matrix exceed eps (sq = sqrt over R;
+       eigh is an arbitrary function whose answer on the Gram matrix the code builds meets eigh_contract2: W orthogonal,
+       G W = W diag(lam)).  S = sqrt of the leading eigenvalues (positive), orthonormal U columns / V rows, and the squared
+       error is the sum of the discarded eigenvalues (= discarded squared singular values).  Wide/square and tall case. --- *)
+Theorem C05_symeig_svd_wide : forall (eigh : list (list R) -> list R * list (list R)) eps (M : list (list R)) d1 d2 n lam W,
+  d1 <= d2 -> rect d1 d2 M ->
+  eigh (mmul Rops d2 (transp Rops d2 M) M) = (lam, W) ->
+  eigh_contract2 d2 (mmul Rops d2 (transp Rops d2 M) M) lam W ->
+  let p := Nat.min (Nat.min d1 d2) (n_kept d1 d2 n) in
+  (forall t, t < p -> (0 <= eps < nth (d2 - 1 - t) lam 0)%R) ->
+  let '(U, Sg, V) := symeig_svd Rops eigh sqrt eps M d1 d2 n in
+  length Sg = p /\
+  (forall t, t < p -> nth t Sg 0%R = sqrt (nth (d2 - 1 - t) lam 0%R) /\ (0 < nth t Sg 0)%R) /\
+  orthonormal_cols d1 p (mget Rops U) /\ orthonormal_rows p d2 (mget Rops V) /\
+  rsum d1 (fun i => rsum d2 (fun j => ((mget Rops M i j - recon U Sg V i j)^2)%R))
+  = rsum (d2 - p) (fun t => nth (d2 - 1 - (p + t)) lam 0%R).
+Proof. exact symeig_wide_svd. Qed.
+Print Assumptions C05_symeig_svd_wide.
+
+Theorem C05_symeig_svd_tall : forall (eigh : list (list R) -> list R * list (list R)) eps (M : list (list R)) d1 d2 n lam W,
+  d2 < d1 -> rect d1 d2 M ->
+  eigh (mmul Rops d1 M (transp Rops d2 M)) = (lam, W) ->
+  eigh_contract2 d1 (mmul Rops d1 M (transp Rops d2 M)) lam W ->
+  let p := Nat.min (Nat.min d1 d2) (n_kept d1 d2 n) in
+  (forall t, t < p -> (0 <= eps < nth (d1 - 1 - t) lam 0)%R) ->
+  let '(U, Sg, V) := symeig_svd Rops eigh sqrt eps M d1 d2 n in
+  length Sg = p /\
+  (forall t, t < p -> nth t Sg 0%R = sqrt (nth (d1 - 1 - t) lam 0%R) /\ (0 < nth t Sg 0)%R) /\
+  orthonormal_cols d1 p (mget Rops U) /\ orthonormal_rows p d2 (mget Rops V) /\
+  rsum d1 (fun i => rsum d2 (fun j => ((mget Rops M i j - recon U Sg V i j)^2)%R))
+  = rsum (d1 - p) (fun t => nth (d1 - 1 - (p + t)) lam 0%R).
+Proof. exact symeig_tall_svd. Qed.
+Print Assumptions C05_symeig_svd_tall.
+
+Example C05_symeig_hyps_satisfiable :
+  eigh_contract2 1 (mmul Rops 1 (transp Rops 1 [[2%R]]) [[2%R]]) [4%R] [[1%R]] /\ (0 <= 1 < nth (1 - 1 - 0) [4] 0)%R.
+Proof. exact symeig_hyps_satisfiable. Qed.
+
+(* --- randomized_svd, transposed branch (range finder on M^T, V' = V @ Q^T as computed by mmul / transp).  PARTIAL like
+       C05_randomized_lift_partial: M = (M Q) Q^T is the named hypothesis --- *)
+Theorem C05_randomized_liftT_partial : forall d1 d2 c p k (Qm U V : list (list R)) (Sg : list R) (M B : nat -> nat -> R),
+  length V = p -> (forall t, t < p -> length (nth t V []) = c) -> length Sg = p ->
+  orthonormal_cols d2 c (mget Rops Qm) ->
+  (forall i j, i < d1 -> j < d2 -> M i j = rsum c (fun a => (B i a * mget Rops Qm j a)%R)) ->
+  orthonormal_cols d1 p (mget Rops U) -> orthonormal_rows p c (mget Rops V) ->
+  (forall i a, i < d1 -> a < c -> B i a = rsum p (fun t => (mget Rops U i t * nth t Sg 0 * mget Rops V t a)%R)) ->
+  k <= p ->
+  let V' := mmul Rops d2 V (transp Rops c Qm) in
+  orthonormal_rows p d2 (mget Rops V') /\
+  (forall i j, i < d1 -> j < d2 -> M i j = recon U Sg V' i j) /\
+  rsum d1 (fun i => rsum d2 (fun j => ((M i j - rsum k (fun t => (mget Rops U i t * nth t Sg 0 * mget Rops V' t j)%R))^2)%R))
+  = rsum (p - k) (fun t => ((nth (k + t) Sg 0)^2)%R).
+Proof. exact randomized_liftT_model_partial. Qed.
+Print Assumptions C05_randomized_liftT_partial.
+
+(* --- svd_flip keeps orthonormality for ANY numbers of U columns / V rows (padding of the sign vector with ones) --- *)
+Theorem C05_flip_orthonormal_gen : forall (U V : list (list R)) (ub : bool) (U' V' : list (list R)) (n : nat),
+  svd_flip Rops U V ub = (U', V') ->
+  orthonormal_cols (length U) (ncols U) (mget Rops U) -> orthonormal_rows (length V) n (mget Rops V) ->
+  orthonormal_cols (length U) (ncols U) (mget Rops U') /\ orthonormal_rows (length V) n (mget Rops V').
+Proof. exact flip_orthonormal_gen. Qed.
+Print Assumptions C05_flip_orthonormal_gen.
+
+(* --- end to end through svd_interface(method = truncated_svd) for EVERY n_eigenvecs (None, 0, > min(shape), > max(shape)) --- *)
+Theorem C05_interface_truncated_e2e_gen : forall (oracle : bool -> triple R) d1 d2 (Mf : nat -> nat -> R) (Ml : list (list R))
+    n flip ub iters sq eps U Sg V,
+  (forall f, svd_contract d1 d2 Mf f (oracle f)) -> 1 <= d1 ->
+  svd_interface Rops (fun _ _ => truncated_svd oracle d1 d2 n) MTruncated d2 Ml n flip ub None None iters sq eps
+    = Ok (U, Sg, V) ->
+  let k := n_kept d1 d2 n in
+  let So := snd (fst (oracle (full_flag d1 d2 n))) in
+  Sg = firstn k So /\ nonneg_list Sg /\ nonincreasing Sg /\
+  orthonormal_cols d1 (Nat.min k d1) (mget Rops U) /\ orthonormal_rows (Nat.min k d2) d2 (mget Rops V) /\
+  rsum d1 (fun i => rsum d2 (fun j => ((Mf i j - recon U Sg V i j)^2)%R))
+    = rsum (Nat.min d1 d2 - k) (fun t => ((nth (k + t) So 0)^2)%R).
+Proof. exact interface_truncated_e2e_gen. Qed.
+Print Assumptions C05_interface_truncated_e2e_gen.
+
+(* --- "best approximation of that rank" as far as it goes without Eckart-Young: PARTIAL, the Eckart-Young-Mirsky
+       inequality is the explicit premise (second argument), not proved and not available in any installed library --- *)
+Theorem C05_interface_best_approx_partial : forall (d1 d2 : nat) (Mf : nat -> nat -> R),
+  (forall (s : list R) (U V : list (list R)), svd_contract d1 d2 Mf false (U, s, V) ->
+     forall k B, rank_le d1 d2 k B ->
+     (rsum (Nat.min d1 d2 - k) (fun t => ((nth (k + t) s 0)^2)%R) <= frob2 d1 d2 (fun i j => (Mf i j - B i j)%R))%R) ->
+  forall (oracle : bool -> triple R) (Ml : list (list R)) r flip ub iters sq eps U Sg V,
+  (forall f, svd_contract d1 d2 Mf f (oracle f)) -> 1 <= r <= Nat.min d1 d2 ->
+  svd_interface Rops (fun _ _ => truncated_svd oracle d1 d2 (Some r)) MTruncated d2 Ml (Some r) flip ub None None iters sq eps
+    = Ok (U, Sg, V) ->
+  rank_le d1 d2 r (recon U Sg V) /\
+  forall B, rank_le d1 d2 r B ->
+    (frob2 d1 d2 (fun i j => (Mf i j - recon U Sg V i j)%R) <= frob2 d1 d2 (fun i j => (Mf i j - B i j)%R))%R.
+Proof. exact interface_best_approx_partial. Qed.
+Print Assumptions C05_interface_best_approx_partial.
+
+(* --- mask imputation: one step is matrix * mask + (U @ St @ V) * (1 - mask) entrywise; observed entries never change;
+       svd_interface under a mask returns the sign-resolved truncated SVD of the LAST imputed matrix --- *)
+Theorem C05_impute_spec : forall d1 d2 (M mask U : list (list R)) (Sg : list R) (V : list (list R)),
+  rect d1 d2 M -> rect d1 d2 mask -> length U = d1 ->
+  rect d1 d2 (impute Rops d2 M mask U Sg V) /\
+  forall i j, i < d1 -> j < d2 ->
+    mget Rops (impute Rops d2 M mask U Sg V) i j
+    = (mget Rops M i j * mget Rops mask i j + mget Rops (lowrank d2 U Sg V) i j * (1 - mget Rops mask i j))%R.
+Proof. exact impute_spec. Qed.
+Print Assumptions C05_impute_spec.
+
+Theorem C05_mask_loop_spec : forall d1 d2 (svd_fun : nat -> list (list R) -> triple R) (mask : list (list R)),
+  rect d1 d2 mask ->
+  (forall c X, rect d1 d2 X -> length (fst (fst (svd_fun c X))) = d1) ->
+  forall iters call M t, rect d1 d2 M -> length (fst (fst t)) = d1 ->
+  let '(M', t') := mask_loop Rops svd_fun d2 mask iters call M t in
+  rect d1 d2 M' /\
+  (forall i j, i < d1 -> j < d2 -> mget Rops mask i j = 1%R -> mget Rops M' i j = mget Rops M i j) /\
+  (0 < iters -> t' = svd_fun (call + iters - 1) M').
+Proof. exact mask_loop_spec. Qed.
+Print Assumptions C05_mask_loop_spec.
+
+Theorem C05_interface_masked_e2e : forall (orc : nat -> list (list R) -> bool -> triple R) d1 d2 (Ml mask : list (list R))
+    r flip ub iters sq eps U Sg V,
+  rect d1 d2 Ml -> rect d1 d2 mask ->
+  (forall c X, rect d1 d2 X -> forall f, svd_contract d1 d2 (mget Rops X) f (orc c X f)) ->
+  1 <= r <= Nat.min d1 d2 -> 1 <= iters ->
+  svd_interface Rops (fun c X => truncated_svd (orc c X) d1 d2 (Some r)) MTruncated d2 Ml (Some r) flip ub None (Some mask) iters sq eps
+    = Ok (U, Sg, V) ->
+  exists Mlast c,
+    rect d1 d2 Mlast /\
+    (forall i j, i < d1 -> j < d2 -> mget Rops mask i j = 1%R -> mget Rops Mlast i j = mget Rops Ml i j) /\
+    Sg = firstn r (snd (fst (orc c Mlast false))) /\ nonneg_list Sg /\ nonincreasing Sg /\
+    orthonormal_cols d1 r (mget Rops U) /\ orthonormal_rows r d2 (mget Rops V) /\
+    rsum d1 (fun i => rsum d2 (fun j => ((mget Rops Mlast i j - recon U Sg V i j)^2)%R))
+      = rsum (Nat.min d1 d2 - r) (fun t => ((nth (r + t) (snd (fst (orc c Mlast false))) 0)^2)%R).
+Proof. exact interface_masked_e2e. Qed.
+Print Assumptions C05_interface_masked_e2e.
+
+(* --- the model's functions factor through the named decision functions of Proofs/SvdDecisions.v (full_matrices switch,
+       slice bounds, branch conditions, n_dims); on every run the harness translates the corresponding expressions of
+       tensorly/tenalg/svd.py from the Python ast and proves them equal to these decision functions --- *)
+Theorem C05_truncated_svd_factored : forall (A : Type) (oracle : bool -> triple A) d1 d2 n,
+  truncated_svd oracle d1 d2 n =
+  let '(k, mn, _) := svd_checks d1 d2 n in
+  let '(b1, b2, b3) := dec_trunc_bounds k in
+  let '(U, Sg, V) := oracle (dec_full k mn) in (map (firstn b1) U, firstn b2 Sg, firstn b3 V).
+Proof. exact @truncated_svd_factored. Qed.
+Print Assumptions C05_truncated_svd_factored.
+
+Theorem C05_randomized_branch_factored : forall (F : Type) (Op : fops F) svd qr G (M : list (list F)) d1 d2 n n_over n_iter,
+  randomized_svd Op svd qr G M d1 d2 n n_over n_iter =
+  let '(k, mn, mx) := svd_checks d1 d2 n in
+  let n_dims := dec_rand_ndims k n_over mx in
+  if dec_rand_transposed d1 d2 k mn n_dims then
+    let Mt := transp Op d2 M in
+    let Q := range_finder Op qr Mt d1 G n_iter in
+    let c := ncols Q in
+    let Mred := transp Op d1 (mmul Op d1 (transp Op c Q) Mt) in
+    let '(U, Sg, V) := truncated_svd (svd Mred) d1 c (Some k) in
+    (U, Sg, mmul Op d2 V (transp Op c Q))
+  else
+    let Q := range_finder Op qr M d2 G n_iter in
+    let c := ncols Q in
+    let Mred := mmul Op d2 (transp Op c Q) M in
+    let '(U, Sg, V) := truncated_svd (svd Mred) c d2 (Some k) in
+    (mmul Op (ncols U) Q U, Sg, V).
+Proof. exact @randomized_svd_factored. Qed.
+Print Assumptions C05_randomized_branch_factored.
+
+Theorem C05_symeig_svd_factored : forall (F : Type) (Op : fops F) eigh sq eps (M : list (list F)) d1 d2 n,
+  symeig_svd Op eigh sq eps M d1 d2 n =
+  let '(k, _, _) := svd_checks d1 d2 n in
+  let Mt := transp Op d2 M in
+  let '(U, Sg, V) :=
+    if dec_symeig_tall d1 d2 then
+      let '(lam, W) := eigh (mmul Op d1 M Mt) in
+      let Sg := map (fun x => sq (clip_lo Op eps x)) lam in
+      (W, Sg, mmul Op d1 Mt (div_cols Op W Sg))
+    else
+      let '(lam, W) := eigh (mmul Op d2 Mt M) in
+      let Sg := map (fun x => sq (clip_lo Op eps x)) lam in
+      (div_cols Op (mmul Op d2 M W) Sg, Sg, W) in
+  let c := if dec_symeig_tall d1 d2 then d1 else d2 in
+  let '(b1, b2, b3) := dec_symeig_bounds d1 d2 k in
+  (map (firstn b1) (map (@rev F) U), firstn b2 (rev Sg), firstn b3 (rev (transp Op c V))).
+Proof. exact @symeig_svd_factored. Qed.
+Print Assumptions C05_symeig_svd_factored.
